@@ -33,7 +33,8 @@ ASSUMPTIONS = [
     'dict-valued leaf updates returned through two ports of one process '
     'are outside the alphabet (the engine merges update trees key-wise)',
 ]
-BOUNDS = {'quick': {'batch': 3}, 'thorough': {'batch': 3}}
+BOUNDS = {'quick': {'batch': 3, 'pairs': 'first 3 updates'},
+          'thorough': {'batch': 3, 'pairs': 'all updates'}}
 
 
 def user_updater(current, update):
@@ -406,10 +407,20 @@ def jobs(ctx):
         for (vmk, umks) in dom:
             # batches of size 1..3 (ordered lists of update makers)
             batches = [(u,) for u in umks]
-            wide = umks if updater == 'merge' else umks[:3]
+            wide = umks if (updater in ('merge', 'dict_value')
+                            or not ctx.quick) else umks[:3]
             batches += list(itertools.product(wide, repeat=2))
-            batches += list(itertools.product(umks[:2], repeat=3))
+            batches += list(itertools.product(
+                umks[:2] if ctx.quick else umks[:3], repeat=3))
             for bi, batch in enumerate(batches):
+                if updater == 'dict_value' and len(batch) > 1:
+                    # keep only batches that are legal in every order
+                    # (deleting a key twice is outside the domain)
+                    try:
+                        expected_set(REF['dict_value'], vmk(),
+                                     [u() for u in batch])
+                    except (KeyError, AttributeError, TypeError):
+                        continue
                 # every shape for single updates; two shapes for batches
                 shapes = SHAPES if len(batch) == 1 else SHAPES[1:3]
                 for (path, n_sib) in shapes:
